@@ -37,6 +37,7 @@ type CCase struct {
 	Readers  []int `json:"readers"`  // a reader is opened when the cache has grown by this many bytes, at a generated valid offset
 	ROff     []int `json:"roff"`     // per reader: distance from the left end (modulo the range)
 	Conc     bool  `json:"conc"`     // true marks the case type for the replay dispatcher
+	MaxSegs  int   `json:"maxSegs"`  // size limit in segments (0: unlimited); the disk collector runs every millisecond, the memory cache collects by itself
 }
 
 func genCCase(t *rapid.T) CCase {
@@ -44,6 +45,7 @@ func genCCase(t *rapid.T) CCase {
 	c.LogSize = rapid.SampledFrom([]int64{64, 256, 1024, 4096}).Draw(t, "logSize")
 	c.Start = rapid.Int64Range(1, 1<<40).Draw(t, "start")
 	c.Chunks = rapid.SliceOfN(rapid.SampledFrom([]int{1, 7, 100, 1000, 4096, 5000}), 1, 4).Draw(t, "chunks")
+	c.MaxSegs = rapid.SampledFrom([]int{0, 0, 6, 20}).Draw(t, "maxSegs")
 	nr := rapid.IntRange(1, 6).Draw(t, "nreplace")
 	for i := 0; i < nr; i++ {
 		c.Replaces = append(c.Replaces, rapid.IntRange(1, 20000).Draw(t, "replaceAfter"))
@@ -68,8 +70,37 @@ func runC(c CCase) (fails []failure, inconc string, facts map[string]bool) {
 	}
 	const lin = 7
 	id := (&cache.Lineage{ID: lin}).RunID()
-	ch := cache.Open(c.Disk, dir, c.LogSize, -1)
+	maxSize := int64(-1)
+	if c.MaxSegs > 0 {
+		maxSize = int64(c.MaxSegs) * c.LogSize
+	}
+	ch := cache.Open(c.Disk, dir, c.LogSize, maxSize)
 	defer ch.Close()
+	gcStop := make(chan struct{})
+	var gcWG sync.WaitGroup
+	if c.Disk && c.MaxSegs > 0 {
+		gcWG.Add(1)
+		go func() {
+			defer gcWG.Done()
+			for {
+				select {
+				case <-gcStop:
+					return
+				case <-time.After(time.Millisecond):
+					ch.Gc()
+				}
+			}
+		}()
+	}
+	stopGc := func() {
+		select {
+		case <-gcStop:
+		default:
+			close(gcStop)
+		}
+		gcWG.Wait()
+	}
+	defer stopGc()
 	if err := ch.C.SetRunId(id); err != nil {
 		return nil, "SetRunId: " + err.Error(), facts
 	}
@@ -229,6 +260,7 @@ func runC(c CCase) (fails []failure, inconc string, facts map[string]bool) {
 	g.w.Close()
 	g.pw.Close()
 	<-g.done
+	stopGc()
 	time.Sleep(2 * time.Millisecond)
 	verify("after the stop")
 	if len(fails) > 0 {
@@ -322,6 +354,7 @@ func checkC(t pbt.TB, c CCase) {
 	}
 	st.ClassIf(c.Disk, "conc:disk")
 	st.ClassIf(!c.Disk, "conc:memory")
+	st.ClassIf(c.MaxSegs > 0, "conc:size-limited")
 	if inconc != "" && len(fails) == 0 {
 		st.Inconc(inconc)
 		return
